@@ -355,8 +355,19 @@ class MailboxData(MailboxDataInterface[Message]):
                     return None
             if destination is self:
                 # same file, same key: the old record would keep denoting it
-                uidl.remove(uid)
+                try:
+                    uidl.remove(uid)
+                except KeyError:
+                    # another session has given the message a new UID since
+                    # the record was read: there is no such message any more
+                    return None
             new_rec = Record(uidl.next_uid, rec.fields, new_filename)
+            for stale in [old for old in uidl.records
+                          if old.key == new_rec.key]:
+                # a file keeps its key when it is moved: a record left from
+                # an earlier stay of this file in the folder must not denote
+                # it again next to the new one
+                uidl.remove(stale.uid)
             uidl.next_uid += 1
             uidl.set(new_rec)
         if destination is not self:
